@@ -287,3 +287,98 @@ void mask_str(uint32_t mask, int n, char *buf, size_t len)
         if (mask >> i & 1) { o += (size_t)snprintf(buf + o, len - o, "%s%d", first ? "" : ",", i); first = 0; }
     snprintf(buf + o, len - o, "]");
 }
+
+const char *LEC_PROP = "";
+int LEC_MODEL_LEGACY = 0;   /* 1 while the legacy-CRC environment switch is on */
+
+/* ---------------------------------------------------------------- set-up */
+int ctx_open(ctx_t *x, const cfg_t *c, const uint64_t *lens, const int *kinds, int nlen)
+{
+    memset(x, 0, sizeof *x);
+    x->c = *c; x->desc = -1;
+    cfg_key(c, x->ck, sizeof x->ck);
+    code_init(&x->cd, c);
+    if (mon_case_all("%s|create", x->ck)) {
+        x->desc = lec_create(c);
+        if (x->desc <= 0)
+            mon_viol(LEC_PROP, "create-failed", "instance_create for a supported configuration returned %d", x->desc);
+        mon_end();
+    }
+    if (x->desc <= 0) return -1;
+    if (nlen > MAXSTR) nlen = MAXSTR;
+    for (int i = 0; i < nlen; i++) {
+        int ok = 0;
+        if (mon_case_all("%s|encode|len=%llu|data=%s", x->ck, (unsigned long long)lens[i], data_kind_name(kinds[i]))) {
+            rng_t r; rng_seed(&r, MO.seed, mon_hash_str(x->ck, lens[i] * 31 + (uint64_t)kinds[i]));
+            uint8_t *d = malloc(lens[i] ? lens[i] : 1);
+            data_fill(d, lens[i], kinds[i], &r, c->k, ref_payload_size(c->be, c->k, lens[i]));
+            stripe_t *s = &x->st[x->nstr];
+            int rc = stripe_make(s, x->desc, c, d, lens[i]);
+            if (rc != 0) {
+                mon_viol(LEC_PROP, "encode-failed", "encode of %llu bytes returned %d", (unsigned long long)lens[i], rc);
+                free(d);
+            } else {
+                /* the stripe the library produced must be the reference stripe (C07 oracle):
+                 * keeps every later comparison anchored to an independent model */
+                uint64_t ef = model_fragment_len(c, lens[i]);
+                if (s->flen != ef)
+                    mon_viol(LEC_PROP, "encode-fragment-length", "fragment_len %llu, model %llu", (unsigned long long)s->flen, (unsigned long long)ef);
+                else if (c->be != EC_BACKEND_NULL) {
+                    uint8_t *exp[64];
+                    for (int f = 0; f < s->n; f++) exp[f] = malloc(ef);
+                    model_stripe(c, d, lens[i], LEC_MODEL_LEGACY, exp);
+                    for (int f = 0; f < s->n; f++) {
+                        if (memcmp(exp[f], s->frag[f], ef)) {
+                            uint64_t off = 0; while (exp[f][off] == s->frag[f][off]) off++;
+                            mon_viol(LEC_PROP, "encode-differs-from-model", "fragment %d differs from the reference serializer at byte %llu (len=%llu): got %02x want %02x",
+                                     f, (unsigned long long)off, (unsigned long long)lens[i], s->frag[f][off], exp[f][off]);
+                            break;
+                        }
+                    }
+                    for (int f = 0; f < s->n; f++) free(exp[f]);
+                }
+                x->data[x->nstr] = d; x->kind[x->nstr] = kinds[i];
+                x->nstr++; ok = 1;
+            }
+            mon_end();
+        }
+        (void)ok;
+    }
+    return x->nstr > 0 ? 0 : -1;
+}
+
+void ctx_close(ctx_t *x)
+{
+    for (int i = 0; i < x->nstr; i++) { stripe_free(&x->st[i]); free(x->data[i]); }
+    if (x->desc > 0) {
+        if (mon_case_all("%s|destroy", x->ck)) {
+            int rc = liberasurecode_instance_destroy(x->desc);
+            if (rc != 0) mon_viol(LEC_PROP, "destroy-failed", "instance_destroy returned %d", rc);
+            mon_end();
+        }
+    }
+}
+
+/* standard stripe set for a config: lengths x data kinds */
+int std_lengths(const cfg_t *c, uint64_t *lens, int *kinds, int max, int few)
+{
+    rng_t r; rng_seed(&r, MO.seed, (uint64_t)(c->be * 1000003 + c->k * 1009 + c->m * 31 + c->hd));
+    uint64_t A = (uint64_t)c->k * (uint64_t)ref_word_bytes(c->be);
+    uint64_t all[32];
+    int n = lengths_for(A, MO.thorough, &r, all, 32);
+    int out = 0;
+    if (few) {
+        /* unaligned small, aligned, one random */
+        uint64_t pick[4] = { A + 1, 16 * A, all[n - 1], 0 };
+        int np = few < 4 ? few : 4;
+        for (int i = 0; i < np && out < max; i++) { lens[out] = pick[i]; kinds[out] = i == 1 ? DATA_HIGH : DATA_RANDOM; out++; }
+        return out;
+    }
+    for (int i = 0; i < n && out < max; i++) {
+        lens[out] = all[i];
+        kinds[out] = (i % 4 == 3) ? 1 + (int)rng_below(&r, DATA_KINDS - 1) : DATA_RANDOM;
+        out++;
+    }
+    return out;
+}
+
